@@ -478,8 +478,28 @@ impl<'a> Builder<'a> {
             ));
         }
 
+        #[cfg(feature = "verif-hooks")]
+        let verif = {
+            let mut site = crate::compiler::verif::Site::new(call_span);
+            site.infallible = self.arguments_with_unknown_type_validity.is_empty()
+                && !closure_fallible
+                && !expr
+                    .type_info(state_before_function_args)
+                    .result
+                    .is_fallible()
+                && self.arguments.iter().all(|arg| {
+                    !arg.expr()
+                        .type_info(state_before_function_args)
+                        .result
+                        .is_fallible()
+                });
+            site
+        };
+
         Ok(CallCompilationResult {
             function_call: FunctionCall {
+                #[cfg(feature = "verif-hooks")]
+                verif,
                 abort_on_error: self.abort_on_error,
                 expr,
                 arguments_with_unknown_type_validity: self.arguments_with_unknown_type_validity,
@@ -551,6 +571,8 @@ impl<'a> Builder<'a> {
 
 #[derive(Clone)]
 pub struct FunctionCall {
+    #[cfg(feature = "verif-hooks")]
+    verif: crate::compiler::verif::Site,
     abort_on_error: bool,
     expr: Box<dyn Expression>,
     arguments_with_unknown_type_validity: Vec<(Parameter, Node<FunctionArgument>)>,
@@ -648,6 +670,13 @@ impl FunctionCall {
 
 impl Expression for FunctionCall {
     fn resolve(&self, ctx: &mut Context) -> Resolved {
+        #[cfg(feature = "verif-hooks")]
+        if crate::compiler::verif::wrap_next() {
+            let result = self.resolve(ctx);
+            self.verif.observe("call", self.ident, &result);
+            return result;
+        }
+
         self.expr.resolve(ctx).map_err(|err| match err {
             ExpressionError::Abort { .. }
             | ExpressionError::Fallible { .. }
